@@ -30,6 +30,7 @@ type Pkt struct {
 	Rst   int      `json:"rst,omitempty"`   // reply status override
 	Bv    int      `json:"bv,omitempty"`    // bad header variant
 	Chunk int      `json:"chunk,omitempty"` // feed in chunks of this many bytes (0 = one chunk)
+	Pre   []int    `json:"pre,omitempty"`   // octets written before the header (proxy-mode streams: the PROXY line)
 }
 
 type Scen struct {
@@ -41,6 +42,7 @@ type Scen struct {
 	Cuts   []int  `json:"cuts,omitempty"` // chunk sizes; the rest goes into a final chunk
 	End    string `json:"end,omitempty"`  // idle | eof | fire
 	Trunc  int    `json:"trunc,omitempty"` // cut this many octets off the end of the stream
+	Proxy  bool   `json:"proxy,omitempty"` // the connection goes to a server started with SetUseProxy(true)
 }
 
 // ---- the runner ----------------------------------------------------------------------
@@ -50,6 +52,8 @@ type chaosRun struct {
 	log     *CapLog
 	lis     *FakeListener
 	srv     *tq.Server
+	plis    *FakeListener // second server, started with SetUseProxy(true)
+	pdone   chan struct{}
 	cancel  context.CancelFunc
 	done    chan struct{}
 	sidPool []uint32
@@ -231,12 +235,21 @@ func (r *chaosRun) start() {
 		r.srv.Serve(ctx, r.lis)
 		close(r.done)
 	}()
+	r.plis = NewFakeListener(nil)
+	psrv := tq.NewServer(r.log, r, tq.SetUseProxy(true))
+	r.pdone = make(chan struct{})
+	go func() {
+		psrv.Serve(ctx, r.plis)
+		close(r.pdone)
+	}()
 }
 
 func (r *chaosRun) stop() {
 	r.cancel()
 	r.lis.Kick()
+	r.plis.Kick()
 	<-r.done
+	<-r.pdone
 }
 
 func (r *chaosRun) gauges(tag string) {
@@ -371,7 +384,11 @@ func (r *chaosRun) runScenario(sc, next *Scen) {
 	conn.Extra = E{"sk": B(logKey)}
 	r.logKey = logKey
 	r.conn = conn
-	r.lis.Offer(conn)
+	if sc.Proxy {
+		r.plis.Offer(conn)
+	} else {
+		r.lis.Offer(conn)
+	}
 	closed := conn.WaitQuiesce()
 	r.stream = nil
 	if sc.Stream {
@@ -438,7 +455,8 @@ func (r *chaosRun) runStream(sc *Scen, conn *FakeConn) {
 	for i := range sc.Pkts {
 		r.curPkt = &sc.Pkts[i]
 		hdr, wire, _ := r.packetBytes(&sc.Pkts[i])
-		pk = append(pk, E{"h": B(hdr), "b": B(wire)})
+		pk = append(pk, E{"h": B(hdr), "b": B(wire), "pre": B(fromInts(sc.Pkts[i].Pre))})
+		all = append(all, fromInts(sc.Pkts[i].Pre)...)
 		all = append(all, hdr...)
 		all = append(all, wire...)
 	}
@@ -450,7 +468,7 @@ func (r *chaosRun) runStream(sc *Scen, conn *FakeConn) {
 	if cuts == nil {
 		cuts = []int{}
 	}
-	r.rec.Emit(E{"e": "stream", "pk": pk, "n": len(all), "cuts": cuts, "end": sc.End, "trunc": sc.Trunc, "sk": B(r.logKey)})
+	r.rec.Emit(E{"e": "stream", "pk": pk, "n": len(all), "cuts": cuts, "end": sc.End, "trunc": sc.Trunc, "proxy": sc.Proxy, "sk": B(r.logKey)})
 	var chunks [][]byte
 	rest := all
 	for _, k := range cuts {
